@@ -38,8 +38,15 @@ def geometry(cfg):
     lam = tp.wavelength_angstrom(80e3)
     roi = cfg["roi"]
     dz = (8 if max(roi) == 4 else 2) * S * S / lam
+    # anisotropic pixels: column pixel size S/sqrt(2), so the Fresnel phase along columns is (pi/2) * 2 * b^2
+    # (PropC = 2 in the model) while rows keep (pi/2) * a^2
+    # (the column scan extent is kept an even number of pixels: the library takes floor(fov / sampling) and then
+    # rounds up to even, which absorbs the 1-ulp error of the irrational pixel size only for even extents)
+    samp = (S, S / np.sqrt(2.0)) if cfg.get("aniso") else S
+    if cfg.get("aniso") and int(round((cfg["gpts"][1] - 1) * cfg["step"])) % 2:
+        raise MachineryError("anisotropic geometry needs an even column scan extent")
     sim = tp.simulate(gpts=cfg["gpts"], roi=roi, num_slices=cfg["ns"], num_probe_modes=1, slice_thickness=dz,
-                      sampling=S, step_px=cfg["step"], seed=1, allow_edge=bool(cfg.get("edge")),
+                      sampling=samp, step_px=cfg["step"], seed=1, allow_edge=bool(cfg.get("edge")),
                       allow_half=bool(cfg.get("half")))
     pos2 = np.rint(2 * sim["positions_px"]).astype(int)          # positions in half pixels
     if not np.allclose(pos2, 2 * sim["positions_px"]):
@@ -57,7 +64,7 @@ def run_model(tmp, cfg, sim, pos2, idx):
                 ", ".join(f"<<{int(r)}, {int(c)}>>" for r, c in pos2) + ">>\n====\n")
     base = (f"SPECIFICATION Spec\nCONSTANTS RY = {cfg['roi'][0]}\n RX = {cfg['roi'][1]}\n NY = {ny}\n NX = {nx}\n"
             f" NS = {cfg['ns']}\n NM = {cfg['nm']}\n Pos <- PosDef\n Half = {'TRUE' if half else 'FALSE'}\n"
-            f" PropR = 1\n PropC = 1\n TwiddleBug = FALSE\n")
+            f" PropR = 1\n PropC = {2 if cfg.get('aniso') else 1}\n TwiddleBug = FALSE\n")
     with open(os.path.join(tmp, f"{mod}_mc.cfg"), "w") as f:
         f.write(base + "INVARIANT IntensityConserved\nINVARIANT WaveEnergy\nINVARIANT Orthogonal\nINVARIANT Emit\n")
     return tlc.run_tlc(mod, f"{mod}_mc.cfg", spec_dir=tmp, workers=1, timeout=1500)
@@ -139,7 +146,7 @@ def run_group(arg):
 def check(rep, tier, seed):
     quick = tier == "quick"
     rep.assume("exact sub-domain: ROI 2x2 / 4x4, quarter-turn phases, Gaussian-integer probes, integer positions, "
-               "quarter-wave slices, half-pixel positions on the 2x2 ROI; other fractional positions, odd/non-square "
+               "quarter-wave slices (isotropic and sqrt(2)-anisotropic pixels), half-pixel positions on the 2x2 ROI; other fractional positions, odd/non-square "
                "ROIs and generic phases are NOT reached by this check", "descan correction disabled (no_shift)", "probe modes are orthogonal with descending "
                "intensity (checked on the model) so the library's orthogonalisation is a no-op",
                "loss zero tolerances: l2 1e-7/1e-8, l1 1e-3/2e-4 (float32, eps under the square root); perturbed loss must exceed 10x the zero tolerance and 100x the loss at the truth")
@@ -147,10 +154,12 @@ def check(rep, tier, seed):
             dict(roi=(2, 2), gpts=(3, 3), step=1, ns=2, nm=1),
             dict(roi=(2, 2), gpts=(3, 4), step=1.5, ns=1, nm=2, half=True),      # exact half-pixel positions
             dict(roi=(2, 2), gpts=(3, 3), step=2.5, ns=2, nm=1, half=True),
+            dict(roi=(4, 4), gpts=(2, 3), step=1, ns=2, nm=1, aniso=True),         # anisotropic pixels, multislice
             dict(roi=(4, 4), gpts=(5, 3), step=2, ns=1, nm=1, edge=True)]          # last scan row at index N
     if not quick:
         cfgs += [dict(roi=(4, 4), gpts=(2, 3), step=1, ns=2, nm=1), dict(roi=(4, 4), gpts=(3, 4), step=2, ns=1, nm=2),
-                 dict(roi=(2, 2), gpts=(4, 4), step=2, ns=1, nm=2), dict(roi=(4, 4), gpts=(3, 3), step=1, ns=3, nm=1)]
+                 dict(roi=(2, 2), gpts=(4, 4), step=2, ns=1, nm=2), dict(roi=(4, 4), gpts=(3, 3), step=1, ns=3, nm=1),
+                 dict(roi=(4, 4), gpts=(2, 3), step=2, ns=3, nm=2, aniso=True), dict(roi=(2, 2), gpts=(3, 3), step=1, ns=2, nm=1, aniso=True)]
     tmp = tempfile.mkdtemp(prefix="c02_")
     jobs = []
     try:
